@@ -750,12 +750,11 @@ def known_findings(ck: Check) -> None:
         camp = probe.campaign("witness")
         cfg = Cfg(**{k: (tuple(map(tuple, v)) if k == "aliases" else v) for k, v in w.get("cfg", {}).items()})
         if w["level"] == "function":
-            impl = real_valid(w["kind"], cfg, w["name"], w.get("excludes"), False, False, timeout=1.0)
-            if impl == "fuel":
-                probe.failures.append(None)
+            still = real_valid(w["kind"], cfg, w["name"], w.get("excludes"), False, False, timeout=1.0) == "fuel"
         else:
             e2e_case(probe, camp, w["names"], cfg, w["model"], nested=w.get("nested"))
-        if probe.failures:
+            still = bool(probe.failures)
+        if still:
             ck.known(f["id"], f["what"])
 
 
